@@ -52,6 +52,7 @@ deque('sg', 1, 1, 1, 0, 2)                       # concurrent spawn, then get
 deque('gs', 1, 1, 1, 0, 2)                       # owner takes the last task (pool reset + leave), re-publishes by spawn
 deque('g', 1, 2, 2, 0, 2)                        # two thieves
 deque('g', 2, 1, 2, 0, 2)                        # one thief stealing twice
+deque('s', 2, 1, 1, 0, 2)                        # thief reaches the slot that is being spawned into
 deque('g', 1, 1, 2, 0, 2, extra={'ISO': 1})      # isolation: skipped tasks / holes
 deque('gg', 1, 1, 3, 0, 2, extra={'HOLE': 1})    # pre-existing hole at a symbolic position
 # thorough tier: deeper
@@ -159,6 +160,7 @@ OUTSIDE = [
   'task_stream (enqueue / resume / critical lanes), task_arena::execute delegation (delegated_task), arena entry/exit',
   'pool growth in prepare_task_pool (needs >= 48 live tasks in a 64-entry pool); only the in-place compaction branch is exercised',
   'r1::get_thread_reference_vertex (std::unordered_map lookup/cleanup); vertices are constructed as it constructs them',
+  'two threads mailing to the same mailbox at the same time (one sender per query; push vs pop and push vs pool-side take are covered)',
   'more than 3 threads, more than 3 tasks / 2 proxies, more than 3 operations per thread, schedules needing more rounds than stated',
   'that the waiter sees the tasks\' writes (memory ordering): the model is sequentially consistent; x86-TSO store buffering and weaker hardware models are outside (a TSO variant of the smallest deque scenario exceeded 16 GB)',
   'user-level API glue (task_group::run/wait, parallel_for partitioners, flow graph) above these kernels; cancellation (skipped instead of run)',
